@@ -11,7 +11,10 @@ THEOREMS = {"Artap.Props.C02": [
 AXIOMS_OK = FLOAT_AXIOMS
 # second tie to the code (tools/py2coq.py + coq/theories/GenProofs): the source of ParetoDominance.compare is translated on every run and proved equal to Model/Dominance.v pareto_compare
 from harness.core import translated_specs
-TRANSLATED = translated_specs("DominanceGen")
+# and (heap front-end tools/py2coq_heap.py, phase 5) Selector.individual / fast_nondominated_sorting are translated WHOLE
+# (object store per written feature, lists of lists of references) and proved equal to Model/Fnds.v; the id allocation
+# of Individual.__init__ (one counter for all classes) is translated and proved to hand out pairwise different ids
+TRANSLATED = translated_specs("DominanceGen", "FndsGen", "IdAllocGen")
 TRUSTED = [
     "Coq 8.16.1 kernel, vm_compute for model evaluation (no native_compute)",
     "FloatAxioms.ltb_spec / eqb_spec and the primitive float operations (standard library) for the float order instance",
